@@ -273,13 +273,31 @@ func (e *Exec) codecPattern(fn *ssa.Function, name string, args []Value) (Value,
 			return Tuple{e.makeBlob(args[0], false), nilErr()}, true
 		case "Size", "XXX_Size":
 			b := e.makeBlob(args[0], false)
+			e.rememberSize(args[0], b.Len)
 			return b.Len, true
 		case "Unmarshal":
 			return e.unmarshalInto(args[1], args[0], false), true
 		case "String":
 			return e.opaqueString("protostring"), true
 		case "MarshalTo", "MarshalToSizedBuffer":
-			panic(engineErr("generated %s not modelled", fn.Name()))
+			// the encoding is written into the caller's buffer: at its end (MarshalToSizedBuffer)
+			// or at its start (MarshalTo); its length is the one Size() reported for this message
+			b := e.makeBlob(args[0], false)
+			if l := e.rememberedSize(args[0]); l != nil {
+				e.assume(smt.Eq(b.Len, l))
+			}
+			dst := args[1].(Bytes)
+			if dst.Buf == nil || e.branch(smt.ULt(dst.Len, b.Len)) {
+				e.goPanicf("index out of range in %s (buffer shorter than the encoding)", fn.Name())
+			}
+			bv := bytesView(b)
+			doff := dst.Off
+			if fn.Name() == "MarshalToSizedBuffer" {
+				doff = smt.Sub(smt.Add(dst.Off, dst.Len), b.Len)
+			}
+			dst.Buf.Fn = FnCopy{Old: dst.Buf.Fn, DOff: doff, Src: bv.Fn, SOff: bv.Off, N: b.Len}
+			e.Notes["CODEC: MarshalTo / MarshalToSizedBuffer copy the modelled encoding into the caller's buffer (the copy is plain bytes: it no longer carries the message identity)"] = true
+			return Tuple{b.Len, nilErr()}, true
 		}
 	}
 	switch name {
@@ -319,4 +337,37 @@ func protoNameOf(t types.Type) string {
 		return n.Obj().Pkg().Name() + "." + n.Obj().Name()
 	}
 	return fmt.Sprint(t)
+}
+
+
+// rememberSize / rememberedSize: Size() and a following MarshalTo* of the same message object
+// agree on the length of the encoding.
+func (e *Exec) sizeKey(msg Value) *Obj {
+	if iv, ok := msg.(Iface); ok {
+		msg = iv.Val
+	}
+	if p, ok := msg.(Ptr); ok {
+		return p.Obj
+	}
+	return nil
+}
+
+func (e *Exec) rememberSize(msg Value, l *smt.Term) {
+	if o := e.sizeKey(msg); o != nil {
+		m, _ := e.path.extra["sizes"].(map[*Obj]*smt.Term)
+		if m == nil {
+			m = map[*Obj]*smt.Term{}
+			e.path.extra["sizes"] = m
+		}
+		m[o] = l
+	}
+}
+
+func (e *Exec) rememberedSize(msg Value) *smt.Term {
+	if o := e.sizeKey(msg); o != nil {
+		if m, _ := e.path.extra["sizes"].(map[*Obj]*smt.Term); m != nil {
+			return m[o]
+		}
+	}
+	return nil
 }
